@@ -9,6 +9,7 @@ import (
 	"encoding/binary"
 	"fmt"
 	"hash/crc32"
+	"io"
 
 	"github.com/dtn7/cboring"
 	"github.com/howeyc/crc16"
@@ -74,6 +75,44 @@ func calculateCRCBuff(buff *bytes.Buffer, crcType CRCType) ([]byte, error) {
 	}
 
 	return data, nil
+}
+
+// checkCRCField reads a block's CRC field, its last field, and checks its value. The Reader r must copy everything
+// read from it into buff, which holds all of the block's bytes read so far, beginning with its array header. So the
+// CRC value is calculated for exactly the bytes received, with the bytes of the CRC value replaced by zeros.
+func checkCRCField(r io.Reader, buff *bytes.Buffer, crcType CRCType) ([]byte, error) {
+	empty, typeErr := emptyCRC(crcType)
+	if typeErr != nil {
+		return nil, typeErr
+	}
+
+	// The field's header is part of buff afterwards, in the very encoding the sender chose.
+	if m, n, err := cboring.ReadMajors(r); err != nil {
+		return nil, err
+	} else if m != cboring.ByteString {
+		return nil, fmt.Errorf("CRC field has major type 0x%X, a byte string is expected", m)
+	} else if n != uint64(len(empty)) {
+		return nil, fmt.Errorf("CRC field of %d bytes does not match CRC type %v", n, crcType)
+	}
+
+	crcCalc := make([]byte, len(empty))
+	data := append(append([]byte{}, buff.Bytes()...), empty...)
+	switch crcType {
+	case CRC16:
+		binary.BigEndian.PutUint16(crcCalc, crc16.Checksum(data, crc16table))
+
+	case CRC32:
+		binary.BigEndian.PutUint32(crcCalc, crc32.Checksum(data, crc32table))
+	}
+
+	crcVal := make([]byte, len(empty))
+	if _, err := io.ReadFull(r, crcVal); err != nil {
+		return nil, err
+	} else if !bytes.Equal(crcCalc, crcVal) {
+		return nil, fmt.Errorf("invalid CRC value: %x instead of expected %x", crcVal, crcCalc)
+	}
+
+	return crcVal, nil
 }
 
 // emptyCRC returns the "default" CRC value for the given CRC Type.
